@@ -61,6 +61,10 @@ NextRun ==
 
 Next == Extend \/ Start \/ Pick \/ StepM \/ NextRun
 Spec == Init /\ [][Next]_vars
+(* termination as a liveness property (checked in a tiny scope; the safety counterpart is StepBound): once a source is    *)
+(* started, every fair behaviour reaches the end of the experiment                                                     *)
+FairSpec == Spec /\ WF_vars(StepM \/ NextRun)
+Terminates == (run \in {"A", "B", "C"}) ~> (run = "end")
 
 (***************************************************************************)
 (* Side conditions of C08 / C16, as functions of the source (through the   *)
